@@ -414,7 +414,7 @@ def run(ctx):
                             if q and outs == [] and (pool == 'array' or bs == 3):
                                 continue
                             cfgs.append({'sigma': list(sigma), 'with_params': wp, 'pool': pool, 'bs': bs, 'seed': seed,
-                                         'same_obj': not q, 'outs': outs})
+                                         'same_obj': (not q) or (pool == 'mem' and bs == 1 and bool(outs)), 'outs': outs})
     # branching configurations: the pool also stores the summary of the second branch
     for sigma in (['Y', 'S', 'S2'], ['S', 'S2'], ['S2'], ['S2', 'd']):
         for wp in (False, True):
@@ -451,6 +451,6 @@ def run(ctx):
     ctx.assumptions += [
         'stored sets of the form in the statement only: a parameter-only store set legitimately changes the random stream',
         'after replacing a node with become() the stores of that node and of its descendants are dropped (documented workflow)',
-        'fresh sampler object per run (quick); max_parallel_batches=1, in-process client',
+        'fresh sampler object per run, plus reruns on the same sampler object (quick: in-memory pools with batch_size 1 only); max_parallel_batches=1, in-process client',
         'pool-free reference = the same seeded run on a freshly built copy of the current model',
     ]
